@@ -17,7 +17,7 @@ ASSUMPTIONS = ["reference: F_ref = sum over the distinct images R x + t (mod 1) 
                "operations are read from the live sg.sg instance (under the C04 invariant in this run); images are identified exactly with Fractions",
                "tolerance as in C07 (6-digit thirds in the tables)"]
 FLOORS = {"post:structure.StructureFactor = explicit P1 sum": 1500, "derived:lattice shift leaves F unchanged": 300,
-          "derived:F is linear in occupancy": 300, "derived:Uiso = equivalent anisotropic tensor": 200,
+          "derived:F is linear in occupancy": 300, "derived:Uiso = equivalent anisotropic tensor": 80,
           "derived:F(000) with zero displacement = occupancy-weighted form-factor sum": 200}
 WORKERS = {"quick": 4, "thorough": 16}
 BUDGET = {"quick": 200, "thorough": 2400}
@@ -100,11 +100,11 @@ def workload(ctx):
         for key in names:
             for kind in ("Uiso", "Uani", "none"):
                 s = int(rng.integers(0, 2 ** 31))
-                if ctx.tier == "quick" and (idx + rep) % 3 == 2 and kind != "Uani":
+                if ctx.tier == "quick" and kind != "Uani" and (s % 2 == 0):
                     idx += 1
                     continue
                 if ctx.mine(idx):
-                    yield "explicit", {"key": key, "kind": kind, "s": s, "nh": ctx.n(3, 8), "disp": ["none", "full", "partial"][idx % 3]}
+                    yield "explicit", {"key": key, "kind": kind, "s": s, "nh": ctx.n(3, 8), "disp": ["none", "full", "partial", "partial"][s % 4]}
                 idx += 1
 
 
@@ -121,9 +121,11 @@ def case_explicit(ctx, p):
     cell = gen.conforming_cell(rng, o.crystal_system, o.cell_choice, variant)
     table = ctx.A.formfactor
     spec = []
-    natoms = int(rng.integers(1, 4))
+    natoms = int(rng.integers(1, 4)) if p["disp"] != "partial" else int(rng.integers(2, 5))
+    pool = [str(e) for e in rng.permutation(c07.ELEMENTS)]
     for i in range(natoms):
-        el = c07.ELEMENTS[int(rng.integers(len(c07.ELEMENTS)))]
+        # partly-None tables need several element types, in any order, some repeated
+        el = pool[i % 3] if p["disp"] == "partial" else c07.ELEMENTS[int(rng.integers(len(c07.ELEMENTS)))]
         special = rng.random() < 0.4
         if special:
             pe = [c15.GRID[int(rng.integers(12))] for _ in range(3)]
@@ -151,7 +153,11 @@ def case_explicit(ctx, p):
         for a in spec:
             disper[a["el"]] = [float(rng.uniform(-2, 2)), float(rng.uniform(0, 4))]
         if p["disp"] == "partial":
-            disper[spec[0]["el"]] = None
+            # any non-empty proper subset of the element types has no dispersion entry (None), wherever those atoms come in the list
+            els = sorted(disper)
+            k = int(rng.integers(1, max(2, len(els))))
+            for el in rng.permutation(els)[:k]:
+                disper[str(el)] = None
     mon.config("adp:" + p["kind"])
     mon.config("dispersion:" + p["disp"])
     scale = c07.scale_of(ctx.A, spec, o.nsymop, disper)
